@@ -76,7 +76,7 @@ PROP = Prop(
     claims=[OPT + '::ensures.start_lo', OPT + '::ensures.ordered', OPT + '::ensures.end_in_seq', OPT + '::ensures.start_in_seq',
             OPT + '::ensures.size_out', OPT + '::ensures.win_*', OPT + '::raises_only',
             WB + '::cut*.C11.*', WB + '::call.opt.*', WB + '::cut*.in_window*', WB + '::cut*.size_pos*', WB + '::cut*.nonempty*',
-            'C11.lemma.*'],
+            'C11.lemma.*', '*int_param::frame.*'],
     lemmas=LEMMAS,
     native_default=native_c11.native_for,
     bounded=[_bounded],
